@@ -84,6 +84,7 @@ def check_C18(tier):
                         cases.append((n, -1, sep, mod, buf))
     cases += [(2, 2, ",", "", 1), (3, 2, " ", "%.txt", 2), (1, 3, ":", "basename", 1), (12, -1, " ", "", 2), (9, 11, ",", "%.txt", 1)]
     cases += [(3, -1, ", ", "", 2), (2, 2, "--", "basename", 1), (3, -1, " -I ", "", 2), (2, -1, "::", "%.txt", 1)]      # separators of several characters
+    cases += [(3, -1, "%", "", 2), (2, 2, "%,", "", 1), (3, -1, "+", "basename", 2), (2, -1, "@", "", 1)]                # punctuation the shell leaves alone
     cases = [c + (False,) for c in cases] + [(1, -1, " ", "", 1, True), (2, -1, ",", "", 2, True), (3, 2, " ", "%.txt", 1, True)]
     cases += [(3, -1, " ", "", 2, "abs"), (2, 2, ",", "", 1, "abs"), (2, 1, " ", "", 2, "mixed")]      # members with absolute paths (all / some)
     def one(c):
@@ -124,4 +125,28 @@ def check_C18(tier):
                 chk.traces += len(rrs)
         if n1 + max(n2, 0) >= 2: chk.nontrivial.add(json.dumps(c))
         chk.sample(dict(kind="join-run", case=label, members=info[0][0] if info else None), limit=5)
+    # a process with TWO joined in-ports: each placeholder gets its own sub-stream, the audit record names the members of both
+    for la, lb in ((3, 2), (2, 3), (1, 1)):
+        inst = dict(name="JN2", max=3, bufsize=4,
+                    procs=[zoo.src("s1", zoo.items(la, "a")), zoo.src("s2", zoo.items(lb, "b")), zoo.cmd("p1", ["in"]), zoo.cmd("p2", ["in"]),
+                           dict(name="ssa", kind="substream"), dict(name="ssb", kind="substream"),
+                           dict(name="cat", kind="cmd", ins=["as", "bs"], outs=["out"], joins={"as": ",", "bs": ","}, outpaths={"out": "o/both.txt"},
+                                arg="echo 'AS[{i:as|join:,}] BS[{i:bs|join:,}]' > {o:out}")],
+                    edges=[zoo.E("s1.out", "p1.in"), zoo.E("s2.out", "p2.in"), zoo.E("p1.out", "ssa.in"), zoo.E("p2.out", "ssb.in"),
+                           zoo.E("ssa.substream", "cat.as"), zoo.E("ssb.substream", "cat.bs")])
+        for rr in fc.real_runs(inst, [dict(env={}, bufsize=4, timeout=30), dict(env={"VERIF_JITTER": "9"}, bufsize=1, timeout=30)]):
+            chk.evaluations += 1
+            txt = rr.snapshot.get("o/both.txt", {}).get("text")
+            aud = rr.snapshot.get("o/both.txt.audit.json", {}).get("text")
+            wa = ["../o/p1.out_a%d.txt" % k for k in range(1, la + 1)]; wb = ["../o/p2.out_b%d.txt" % k for k in range(1, lb + 1)]
+            want = "AS[%s] BS[%s]\n" % (",".join(wa), ",".join(wb))
+            if rr.timeout or rr.deadlock or rr.rc != 0 or txt is None:
+                chk.violation("process with two joined in-ports (%d and %d members) did not complete: rc=%s %s" % (la, lb, rr.rc, rr.stderr[-160:].replace("\n", " | ")), dict(instance=inst)); continue
+            if txt != want:
+                chk.violation("process with two joined in-ports: the command received %r, expected %r" % (txt.strip(), want.strip()), dict(instance=inst))
+            ups = set((json.loads(aud).get("Upstream") or {}).keys()) if aud else set()
+            wantup = {x[3:] for x in wa + wb}
+            if ups != wantup:
+                chk.violation("process with two joined in-ports: audit Upstream keys %s, expected the members of both sub-streams %s" % (sorted(ups), sorted(wantup)), dict(instance=inst))
+        chk.nontrivial.add("two-joined-ports:%d:%d" % (la, lb))
     return chk.finish()
